@@ -1,0 +1,35 @@
+//go:build verif
+
+package diff
+
+// Verification hooks (property C27): exported wrappers around unexported functions. Add-only.
+
+// VerifChunk mirrors chunk.
+type VerifChunk struct {
+	Del, Ins, Eq int
+}
+
+// VerifLCS returns the edit script computed by lcs.
+func VerifLCS(a, b []int) []VerifChunk {
+	var ret []VerifChunk
+	for _, c := range lcs(a, b) {
+		ret = append(ret, VerifChunk{Del: c.del, Ins: c.ins, Eq: c.eq})
+	}
+	return ret
+}
+
+// VerifMiddle calls middle with a fresh buffer of the documented size.
+func VerifMiddle(a, b []int) (ai, bi, ln int) {
+	buf := make([]int, 2*(len(a)+len(b)+2))
+	return middle(a, b, buf)
+}
+
+// VerifTrace calls trace (inputs are expected to have no common prefix or suffix) with a fresh buffer.
+func VerifTrace(a, b []int) []VerifChunk {
+	buf := make([]int, 2*(len(a)+len(b)+2))
+	var ret []VerifChunk
+	for _, c := range trace(a, b, buf, nil) {
+		ret = append(ret, VerifChunk{Del: c.del, Ins: c.ins, Eq: c.eq})
+	}
+	return ret
+}
